@@ -18,7 +18,7 @@ def cases(tier):
     for i in range(n_dense):
         n = r.choice([1, 1, 2, 3, 4, 5, 6, 8, 10, 14]) if i % 7 else r.randint(15, 24)
         dup = r.choice([0.0, 0.0, 0.5])
-        es = gen.events(r, n, dup=dup, late=(i % 3 == 0))
+        es = gen.events(r, n, dup=dup, late=(i % 3 == 0), medium=(i % 6 == 2))
         policy = r.choice(['dedup', 'keep']) if gen.has_dup(es) and r.random() < 0.8 else \
             r.choice(['error', 'dedup', 'keep'])
         c = dict(gen.params(r, coarse=(i % 5 != 0)), events=es, policy=policy, stream='dense',
@@ -49,7 +49,7 @@ def cases(tier):
          (gen.wide_outs, 1025), (gen.wide_outs, 1100), (gen.wide_outs, 2500)]
     for f, k in wides:
         es = f(r, k, n_events=3)
-        c = dict(gen.params(r), events=es, policy='error', stream='wide', n_jobs=r.choice([2, 4]),
+        c = dict(gen.params(r), events=es, policy=r.choice(['error', 'dedup']), stream='wide', n_jobs=r.choice([2, 4]),
                  per_job=r.choice([7, 100, 1000]), per_file=r.choice([2, 10000000]), _timeout=300)
         out.append((c, LEARNERS))
     # long sequences outside the exact domain (tolerance comparison) - thorough only
